@@ -13,7 +13,6 @@ package c13
 import (
 	"bytes"
 	"fmt"
-	"sort"
 	"strings"
 	"testing"
 	"time"
@@ -564,6 +563,26 @@ func TestCheck(t *testing.T) {
 		}
 	}
 	if r.Replay != nil {
+		var probe struct {
+			Layer string `json:"layer"`
+		}
+		r.DecodeReplay(&probe)
+		if probe.Layer == "T" {
+			var c CaseT
+			r.DecodeReplay(&c)
+			pg := progTByName(c.Prog)
+			if pg == nil {
+				t.Fatalf("unknown program %q", c.Prog)
+			}
+			x, k, d := runT(t, pg, c.Choices)
+			r.Eval(1)
+			r.Transition(len(x.Steps))
+			r.State(1)
+			if k != "" {
+				r.Fail(k+"|"+pg.name, fmt.Sprintf("%s: %s", c, d), len(x.Steps), c)
+			}
+			return
+		}
 		var c Case
 		r.DecodeReplay(&c)
 		kind, detail, _, _ := execute(t, c, false)
@@ -571,104 +590,115 @@ func TestCheck(t *testing.T) {
 		record(c, kind, detail)
 		return
 	}
-	k, depth := 2, 5
-	if r.Thorough() {
-		depth = 6
+	type cfg struct {
+		k, depth int
+		fineMins bool
 	}
-	type item struct{ ops []Op }
-	seen := map[string]bool{}
-	frontier := []item{{}}
+	cfgs := []cfg{{2, 5, false}}
+	if r.Thorough() {
+		// two sessions to depth 6 with the fine clock alphabet, then three sessions to depth 4
+		cfgs = []cfg{{2, 6, true}, {3, 4, false}}
+	}
 	execs := 0
 	capped := false
-	for len(frontier) > 0 {
-		cur := frontier[0]
-		frontier = frontier[1:]
-		if r.OverBudget() || capped {
-			r.Cap(fmt.Sprintf("time budget reached during BFS at depth %d", len(cur.ops)+1))
-			break
-		}
-		ops := enabled(k, cur.ops, r.Thorough())
-		for oi, o := range ops {
-			path := append(append([]Op{}, cur.ops...), o)
-			// shard on the first two operations of the path
-			if len(path) >= 2 {
-				h := int(mc.Hash(path[0].String(), path[1].String()) % uint64(r.NShards))
-				if h != r.Shard {
-					continue
-				}
-			} else if len(path) == 1 && depth > 1 {
-				// every shard walks the first level (cheap) to reach its own second level
-				_ = oi
-			}
-			if r.OverBudget() {
-				capped = true
+	type item struct{ ops []Op }
+	for _, cf := range cfgs {
+		k, depth := cf.k, cf.depth
+		seen := map[string]bool{}
+		frontier := []item{{}}
+		for len(frontier) > 0 {
+			cur := frontier[0]
+			frontier = frontier[1:]
+			if r.OverBudget() || capped {
+				r.Cap(fmt.Sprintf("time budget reached during BFS at depth %d", len(cur.ops)+1))
 				break
 			}
-			c := Case{K: k, Ops: path}
-			var o1 struct {
-				Kind, Detail, Key string
-				Probes            []Probe
-			}
-			replayed, hung := r.Memo(execs, &o1, func() {
-				r.Guard(execs, 120*time.Second, "hang", c.String(), c, func() {
-					o1.Kind, o1.Detail, o1.Key, o1.Probes = execute(t, c, true)
-				})
-			})
-			execs++
-			if hung {
-				continue // journalled as a watchdog hang by the earlier segment
-			}
-			kind, detail, key, probes := o1.Kind, o1.Detail, o1.Key, o1.Probes
-			if !replayed && (len(path) >= 2 || r.Shard == 0) {
-				record(c, kind, detail)
-			}
-			if kind != "" {
-				continue
-			}
-			if seen[key] {
-				continue
-			}
-			seen[key] = true
-			r.State(mc.Hash(key))
-			r.Nontrivial(mc.Hash(c.String()))
-			if len(seen)%97 == 1 {
-				r.Sample(map[string]any{"path": c.String(), "state": key, "probes": len(probes)})
-			}
-			// probes in this (new) state
-			if len(path) >= 2 || r.Shard == 0 {
-				for _, p := range probes {
-					p := p
-					if r.OverBudget() {
-						capped = true
-						break
+			ops := enabled(k, cur.ops, cf.fineMins)
+			for oi, o := range ops {
+				path := append(append([]Op{}, cur.ops...), o)
+				// shard on the first two operations of the path
+				if len(path) >= 2 {
+					h := int(mc.Hash(path[0].String(), path[1].String()) % uint64(r.NShards))
+					if h != r.Shard {
+						continue
 					}
-					pc := Case{K: k, Ops: path, Probe: &p}
-					var o2 struct{ Kind, Detail string }
-					rep2, hung2 := r.Memo(execs, &o2, func() {
-						r.Guard(execs, 120*time.Second, "hang", pc.String(), pc, func() {
-							o2.Kind, o2.Detail, _, _ = execute(t, pc, false)
-						})
+				} else if len(path) == 1 && depth > 1 {
+					// every shard walks the first level (cheap) to reach its own second level
+					_ = oi
+				}
+				if r.OverBudget() {
+					capped = true
+					break
+				}
+				c := Case{K: k, Ops: path}
+				var o1 struct {
+					Kind, Detail, Key string
+					Probes            []Probe
+				}
+				replayed, hung := r.Memo(execs, &o1, func() {
+					r.Guard(execs, 120*time.Second, "hang", c.String(), c, func() {
+						o1.Kind, o1.Detail, o1.Key, o1.Probes = execute(t, c, true)
 					})
-					execs++
-					if !rep2 && !hung2 {
-						record(pc, o2.Kind, o2.Detail)
+				})
+				execs++
+				if hung {
+					continue // journalled as a watchdog hang by the earlier segment
+				}
+				kind, detail, key, probes := o1.Kind, o1.Detail, o1.Key, o1.Probes
+				if !replayed && (len(path) >= 2 || r.Shard == 0) {
+					record(c, kind, detail)
+				}
+				if kind != "" {
+					continue
+				}
+				if seen[key] {
+					continue
+				}
+				seen[key] = true
+				r.State(mc.Hash(key))
+				r.Nontrivial(mc.Hash(c.String()))
+				if len(seen)%97 == 1 {
+					r.Sample(map[string]any{"path": c.String(), "state": key, "probes": len(probes)})
+				}
+				// probes in this (new) state
+				if len(path) >= 2 || r.Shard == 0 {
+					for _, p := range probes {
+						p := p
+						if r.OverBudget() {
+							capped = true
+							break
+						}
+						pc := Case{K: k, Ops: path, Probe: &p}
+						var o2 struct{ Kind, Detail string }
+						rep2, hung2 := r.Memo(execs, &o2, func() {
+							r.Guard(execs, 120*time.Second, "hang", pc.String(), pc, func() {
+								o2.Kind, o2.Detail, _, _ = execute(t, pc, false)
+							})
+						})
+						execs++
+						if !rep2 && !hung2 {
+							record(pc, o2.Kind, o2.Detail)
+						}
 					}
 				}
-			}
-			if len(path) < depth {
-				frontier = append(frontier, item{path})
+				if len(path) < depth {
+					frontier = append(frontier, item{path})
+				}
 			}
 		}
+		if capped && len(frontier) == 0 {
+			r.Cap("time budget reached during BFS (last level)")
+		}
+		r.Note(fmt.Sprintf("bfs_k%d_depth", k), depth)
+		r.Note(fmt.Sprintf("max_bfs_k%d_states_in_a_shard", k), len(seen))
 	}
-	if capped && len(frontier) == 0 {
-		r.Cap("time budget reached during BFS (last level)")
-	}
-	var keys []string
-	for s := range seen {
-		keys = append(keys, s)
-	}
-	sort.Strings(keys)
 	r.Note("sum_executions", execs)
-	r.Note("depth", depth)
-	r.Note("sessions", k)
+	// Layer T: thread interleavings of concurrent sessions (Engine T)
+	if !capped && !r.OverBudget() {
+		bound := 1
+		if r.Thorough() {
+			bound = 2
+		}
+		layerT(t, r, bound)
+	}
 }
